@@ -61,7 +61,8 @@ def get_new_fields(resource, fields):
         if isinstance(target, str):
             target = dict(
                 name=target,
-                type=get_type(resource['schema']['fields'],
+                # fields computed earlier in the same call may be sources of later ones
+                type=get_type(resource['schema']['fields'] + new_fields,
                               f.get('source', []),
                               f['operation'])
             )
